@@ -100,7 +100,9 @@ def gen_doc(rng, big=False):
         doc["removed"] = [jsonvals.rand_string(rng, 5)]
         doc["repodata_version"] = 1
         if rng.random() < 0.3:
-            doc[jsonvals.rand_string(rng, 5) or "x"] = jsonvals.rand_value(rng, 0, 2, 3)
+            xk = jsonvals.rand_string(rng, 5) or "x"
+            if xk not in ("packages", "packages.conda", "signatures"):
+                doc[xk] = jsonvals.rand_value(rng, 0, 2, 3)
     items = list(doc.items())
     rng.shuffle(items)
     if pre == "stale" and rng.random() < 0.5:
